@@ -17,7 +17,10 @@ Lemma c01_workflow_preserves : forall n m w, In (n, m, w) wf_table ->
   forall s s' k, In s (full_pre m) -> wsem (m_cfg m) w s s' k -> c01_post s' = true.
 Proof.
   intros n m w H s s' k Hin HS. apply table_c01 in H. unfold c01_check in H.
-  apply andb_prop in H. destruct H as [H _]. eapply wf_establishes_sound; eauto.
+  apply andb_prop in H. destruct H as [H _].
+  eapply (wf_establishes_sound (m_cfg m) w (full_pre m) c01_post); eauto.
+  unfold wf_establishes. destruct (exec (m_cfg m) FUEL w (full_pre m)); [|discriminate].
+  apply andb_prop in H. tauto.
 Qed.
 
 Lemma c01_error_passes : forall n m w, In (n, m, w) wf_table ->
